@@ -234,6 +234,37 @@ def run_case(case, ctx):
                               f"(dtype {pz.dtype}) vs {psi_l[i]!r} / {prob_l[i]!r}", tags={"state": kind, "dtype": str(alt.dtype)}, witness=wit)
                 break
 
+    # (5b) the values belong to the basis state, not to its position in the batch or to how the batch lies in memory:
+    # arbitrary row order, duplicates, one-row and all-equal batches, strided / column-major / sliced / expanded views
+    for rep_ in range(3):
+        m_ = [1, int(rng.integers(2, 2 * N + 2)), int(rng.integers(2, 7))][rep_]
+        idx_ = rng.integers(0, N, size=m_)
+        if rep_ == 2:
+            idx_[:] = idx_[0]
+        batch, form = gen.memory_form(sp[idx_.tolist()].clone(), rng)
+        keep = batch.clone()
+        pb = ctx.lib("psi(batch)", st.psi, batch, tags={"state": kind, "memory_form": form})
+        ab = ctx.lib("amplitude(batch)", st.amplitude, batch, tags={"state": kind, "memory_form": form})
+        fb = ctx.lib("phase(batch)", st.phase, batch, tags={"state": kind, "memory_form": form})
+        qb = ctx.lib("probability(batch)", st.probability, batch, tags={"state": kind, "memory_form": form})
+        ctx.count("arbitrary_batches_compared")
+        ctx.seen("memory_forms", form)
+        if not (_shape_ok(ctx, "psi(batch)", pb, (2, m_)) and _shape_ok(ctx, "amplitude(batch)", ab, (m_,))
+                and _shape_ok(ctx, "phase(batch)", fb, (m_,)) and _shape_ok(ctx, "probability(batch)", qb, (m_,))):
+            break
+        zb = gen.dec(pb)
+        bad = (np.abs(zb - psi_l[idx_]) > 1e-12 * np.abs(psi_l[idx_])) | (np.abs(ab.numpy() - amp_l[idx_]) > 1e-12 * amp_l[idx_]) \
+            | (np.abs(fb.numpy() - pha_l[idx_]) > 1e-12 * (1 + np.abs(pha_l[idx_]))) | (np.abs(qb.numpy() - prob_l[idx_]) > 1e-12 * prob_l[idx_])
+        if bad.any():
+            j = int(np.argmax(bad))
+            ctx.violation("batch-position-dependence", f"batch of {m_} rows ({form}), position {j} = basis state {int(idx_[j])}: psi={zb[j]!r} "
+                          f"prob={float(qb[j])!r} vs {psi_l[idx_[j]]!r} / {prob_l[idx_[j]]!r} from the ordered full space",
+                          tags={"state": kind, "memory_form": form}, witness=dict(wit, rows=idx_.tolist(), form=form))
+            break
+        if not torch.equal(batch, keep):
+            ctx.violation("input-mutated", f"a {form} batch was modified by psi/amplitude/phase/probability", tags={"state": kind})
+            break
+
     # results returned earlier must not be clobbered by later calls (no shared work buffers)
     ctx.count("held_results_rechecked", 4)
     if not (np.array_equal(gen.dec(psi), psi_l) and np.array_equal(amp.numpy(), amp_l) and np.array_equal(prob.numpy(), prob_l)
